@@ -39,6 +39,21 @@ pub fn apply(lib: &Library) -> SemanticResult {
     Ok(())
 }
 
+/// Returns true if the first value is strictly less than the second value.
+///
+/// The values are compared by sign and magnitude because the magnitude
+/// is any 128-bit unsigned value so it is not always a signed 128-bit value.
+fn is_less_than(first: &SignedInteger, second: &SignedInteger) -> bool {
+    let first_neg = first.is_neg && first.value.value != 0;
+    let second_neg = second.is_neg && second.value.value != 0;
+    match (first_neg, second_neg) {
+        (true, false) => true,
+        (false, true) => false,
+        (false, false) => first.value.value < second.value.value,
+        (true, true) => first.value.value > second.value.value,
+    }
+}
+
 struct RuleDeclSubrangeLimits {
     diagnostics: Vec<Diagnostic>,
 }
@@ -47,10 +62,7 @@ impl Visitor<Diagnostic> for RuleDeclSubrangeLimits {
     type Value = ();
 
     fn visit_subrange(&mut self, node: &Subrange) -> Result<(), Diagnostic> {
-        let minimum: i128 = node.start.clone().try_into().expect("Value in range i128");
-        let maximum: i128 = node.end.clone().try_into().expect("Value in range i128");
-
-        if minimum >= maximum {
+        if !is_less_than(&node.start, &node.end) {
             self.diagnostics.push(
                 Diagnostic::problem(
                     Problem::SubrangeMinStrictlyLessMax,
